@@ -283,6 +283,17 @@ Proof.
   rewrite E. now rewrite <- IH.
 Qed.
 
+(* a bracket expression without "-" and not starting with "!": its characters *)
+Lemma mk_set_no_dash chars :
+  ~ In c_dash chars -> match chars with c :: _ => aeqb c c_bang = false | [] => True end ->
+  mk_set chars = TSet false (map ISingle chars).
+Proof.
+  intros Hd Hb. unfold mk_set, set_chunks.
+  assert (E : amem c_dash chars = false).
+  { destruct (amem c_dash chars) eqn:X; [|reflexivity]. apply amem_In in X. contradiction. }
+  rewrite E. destruct chars as [|c r]; [reflexivity|]. rewrite Hb. reflexivity.
+Qed.
+
 Lemma existsb_singles c chars : existsb (item_matches c) (map ISingle chars) = amem c chars.
 Proof. induction chars as [|d r IH]; [reflexivity|]. cbn. now rewrite IH. Qed.
 
@@ -298,9 +309,7 @@ Proof.
     - cbn [rev]. destruct (rev r) as [|x [|y l]]; reflexivity. }
   rewrite parse_bracket by assumption. rewrite parse_plain_all by exact Hq.
   assert (Em : mk_set chars = TSet false (map ISingle chars)).
-  { destruct chars as [|c r]; [congruence|]. cbn [mk_set].
-    assert (E : aeqb c c_bang = false) by (apply aeqb_neq; now apply (Hb c r)).
-    rewrite E. now rewrite items_of_singles. }
+  { apply mk_set_no_dash; [exact Hd|]. destruct chars as [|c r]; [congruence|]. apply aeqb_neq. now apply (Hb c r). }
   rewrite Em, gmatch_lits. split.
   - intros [b [E M]]. apply gmatch_set in M. destruct M as [c [b' [-> [Hx M]]]].
     rewrite <- (app_nil_r (map TLit (la post))) in M. apply gmatch_lits in M. destruct M as [b'' [-> M]].
